@@ -14,14 +14,17 @@ open PolyVerif.Mesh PolyVerif.Mesh.MeshVal PolyVerif.Delaunay
 variable {α : Type} {R : Type} [CommRing R] [LinearOrder R] [IsStrictOrderedRing R]
 
 /-- `BowyerWatson(points)`: the mesh carries `n = len(points)` vertices (Position, TexCoord arrays of length `n`,
-    bowyer_watson.go:373-383) and the triangles the algorithm leaves after dropping every triangle that touches
-    the super-triangle, in whatever order the Go map yields them: every index is `< n`, the count is a multiple of 3. -/
-theorem bowyerWatson_wf (P : Nat → Pt R) (env : List Tri → List Tri) (n : Nat) {m : MeshVal α}
-    (h : IsPrim m n (untriples (bw P env n))) : WF m := by
+    bowyer_watson.go:373-383) and its index buffer lists triangles of the final triangulation map in whatever order and
+    multiplicity the Go `for triangle := range triangulation` yields them (`tris`: any list of members of `bw P env n`;
+    `env` is the enumeration used INSIDE the algorithm for the bad-triangle scan). Every index is `< n`, the count is a
+    multiple of 3. NOTE: `C20.bw_indices_lt` reflects only the final filter "drop every triangle touching a
+    super-triangle vertex" together with "n vertices" — not the insertion algorithm. -/
+theorem bowyerWatson_wf (P : Nat → Pt R) (env : List Tri → List Tri) (n : Nat) (tris : List Tri)
+    (htris : ∀ t ∈ tris, t ∈ bw P env n) {m : MeshVal α} (h : IsPrim m n (untriples tris)) : WF m := by
   apply prim_wf h
   · intro i hi
     obtain ⟨t, ht, hx⟩ := mem_untriples hi
-    have := C20.bw_indices_lt P env n t ht
+    have := C20.bw_indices_lt P env n t (htris t ht)
     rcases hx with rfl | rfl | rfl
     · exact this.1
     · exact this.2.1
@@ -30,11 +33,12 @@ theorem bowyerWatson_wf (P : Nat → Pt R) (env : List Tri → List Tri) (n : Na
 
 /-- the public entry point: `none` = fewer than 3 points (panic) -/
 theorem bowyerWatson_entry_wf {K : Type} [Field K] [LinearOrder K] [IsStrictOrderedRing K]
-    (env : List Tri → List Tri) (pts : List (Pt K)) {tris : List Tri}
-    (hb : bowyerWatson env pts = some tris) {m : MeshVal α} (h : IsPrim m pts.length (untriples tris)) : WF m := by
+    (env : List Tri → List Tri) (pts : List (Pt K)) {res : List Tri}
+    (hb : bowyerWatson env pts = some res) (tris : List Tri) (htris : ∀ t ∈ tris, t ∈ res)
+    {m : MeshVal α} (h : IsPrim m pts.length (untriples tris)) : WF m := by
   unfold bowyerWatson at hb
   split at hb
-  · cases hb; exact bowyerWatson_wf _ env _ h
+  · cases hb; exact bowyerWatson_wf _ env _ tris htris h
   · cases hb
 
 example : ∃ tris, bowyerWatson id [((0 : ℚ), (0 : ℚ)), (4, 0), (0, 3), (5, 5)] = some tris := ⟨_, rfl⟩
